@@ -19,6 +19,7 @@ EXPLANATION = (
     "Equivalence for all assignments is not decided."
     " Added after seed round 6: K6 the translation memo of _break_cycles is keyed by the node only although the translation depends on is_evidence: passes with different is_evidence values get different tables."
     " Added after seed round 7: K7 _break_cycles substitutes a propagated evidence value only on paths where is_evidence is false."
+    " Added after seed round 8: K8 a memo table inside one transformation function is written under the key form it is read under (module scan, positive example)."
 )
 TECHNIQUE = "static analysis: clause-template extraction from the AST, decision-table extraction of _break_cycles"
 LEVEL_TEXT = EXPLANATION
